@@ -10,7 +10,11 @@
    yield_rewrite.go can fail — pushing onto a frozen or unchecked block, popping an empty block,
    pushReturn with a non-return kind, returnNormalRequired on a wrong kind of block, "yield in
    if-init", "post is not a return" — for any fuel; the only failure of the model is running
-   out of its own fuel, which the Go code does not have.  That the output builds is a checked
+   out of its own fuel, which the Go code does not have.  In the FINAL output (after pass3 and
+   rmRedundantReturn) every function literal, at any depth, ends in a statement the transcribed
+   termination checker accepts — "missing return" cannot be reported for generated code
+   (C11_output_literals_terminate_partial) — and no break / continue is left where Go rejects it
+   (C11_branch_placement_partial).  The rest of "the output builds" is a checked
    condition, not a theorem: [legalb] (every generated function literal returns a seq value on
    every path, no stray break / continue / fallthrough) is evaluated on every generated program
    by the structural correspondence (evidence of C01: model_output_not_legal = 0) and the real
@@ -18,7 +22,7 @@
    imports, methods / generics / function literals as generator hosts are not modelled. *)
 From Coq Require Import List.
 From Verif Require Import Base Syntax Rewrite Side.
-From Verif Require Import Accept C01Main Placement.
+From Verif Require Import Accept C01Main Placement Legal P3Term.
 Import ListNotations.
 
 Theorem C11_no_assertion_failure_partial :
@@ -50,6 +54,45 @@ Proof.
   apply pass3_placement; assumption.
 Qed.
 Print Assumptions C11_branch_placement_partial.
+
+(* every function literal pass2 generates — the body handed to Start(Delay(..)), the continuation of every
+   Bind, both halves of every Combine, every loop-body callback — ends in a statement the transcribed
+   termination checker accepts, or in a break / continue that pass3 turns into a return (previous theorem):
+   Go's "missing return" cannot be caused by the rewriter on the fragment *)
+Theorem C11_function_literals_terminate_partial :
+  forall (body mid : list stmt) (k : nat),
+    supps k (map (pass0 400) body) = true -> pass12 body = OK mid ->
+    lastT mid /\ Forall WT mid.
+Proof.
+  intros body mid k Hs H12. destruct (pass12_spec body mid H12) as [B [HB ->]].
+  exact (pass2_terminates _ k _ B Hs HB).
+Qed.
+Print Assumptions C11_function_literals_terminate_partial.
+
+(* ... and so is every function literal of the FINAL output, at any depth: [tlit] says that every
+   literal body l nested in a statement satisfies is_term TFUEL (SBlock l), the transcription of
+   return.go's isTerminating; the conclusion's second half is the same for the outermost callback *)
+Theorem C11_output_literals_terminate_partial :
+  forall (body mid out : list stmt) (ks k : nat),
+    supps ks (map (pass0 400) body) = true ->
+    pass12 body = OK mid -> rewrite body = OK out ->
+    forallb (fitsb k) mid = true -> S (S (S k)) <= 199 ->
+    forallb (tlit (S (S k))) out = true /\ is_term TFUEL (SBlock out) = true.
+Proof.
+  intros body mid out ks k Hs H12 Hr Hf Hk.
+  destruct (rewrite_spec body out Hr) as [mid' [H12' ->]]. rewrite H12 in H12'. injection H12' as <-.
+  destruct (pass12_spec body mid H12) as [B [HB ->]].
+  destruct (pass2_terminates _ ks _ B Hs HB) as [Hl Hw].
+  apply pass3_terminates; [unfold P3FUEL; apply (PeanoNat.Nat.le_lt_trans _ 199); [exact Hk|repeat constructor]|exact Hk|exact Hf|exact Hw|exact Hl].
+Qed.
+Print Assumptions C11_output_literals_terminate_partial.
+
+Example C11_output_terminates_example :
+  match rewrite [SFor None (Some 1) None [SYield 2; SIf None 3 [SBreak] ENone; SAtom 4]; SYield 5] with
+  | OK out => forallb (tlit 100) out && is_term TFUEL (SBlock out)
+  | Err _ => false
+  end = true.
+Proof. vm_compute. reflexivity. Qed.
 
 (* non-vacuity: a supported body on which the model succeeds; and a body outside the fragment
    (yield in an if-init) on which the model does fail an assertion *)
